@@ -97,10 +97,16 @@ type Gen struct {
 // that satisfy one, so that exploration continues past a recorded defect.
 var KnownTriggers = map[string]bool{}
 
+// ForceNoAvoid makes every run ignore KnownTriggers (used to produce witnesses).
+var ForceNoAvoid bool
+
 func NewGen(seed uint64, p *Profile) *Gen {
 	g := &Gen{R: NewRng(seed), P: p, defs: map[string][]TableDef{}, nextID: 1, nextW: 1, avoid: map[string]bool{}}
 	g.makeWorld()
 	g.drawCfg()
+	if ForceNoAvoid {
+		g.Cfg.AvoidKnown = false
+	}
 	if g.Cfg.AvoidKnown {
 		for k := range KnownTriggers {
 			g.avoid[k] = true
@@ -177,7 +183,7 @@ func (g *Gen) makeWorld() {
 		u.HashVals = keyVals(r, p.KeyStyle, hashT, r.Range(2, 4), true)
 		u.RangeVals = keyVals(r, p.KeyStyle, rangeT, r.Range(2, 4), false)
 		g2T := pick(r, []string{"S", "S", "N"})
-		if p.KeyStyle != "numeric" && p.Prop != "C02" {
+		if (p.KeyStyle != "numeric" && p.Prop != "C02") || (KnownTriggers["number-sort-key-order"] && r.Chance(0.8)) {
 			g2T = "S"
 		}
 		u.IdxVals["g1"] = []AV{S("p"), S("q"), S("pq")}[:r.Range(2, 3)]
